@@ -133,6 +133,17 @@ c31_resid(W, B, K) :-
     call_residue_vars(( freeze(X, true), dif(Y, a), catch(W, B, true), freeze(Z, true) ), Vs),
     c31_memq(X, Vs, KX), c31_memq(Y, Vs, KY), c31_memq(Z, Vs, KZ),
     X = 1, Y = b, Z = 2, K = k(KX, KY, KZ).
+% ... the protected goal first copies terms holding attributed variables that are older than
+% the catch/3 (copy_term/2, findall/3, a ball, a global variable), then runs the workload
+c31_attcopy(W, B, K) :-
+    freeze(X, K1 = woke), dif(Y, Z), T = t(X, Y, Z, [X|_]),
+    catch(( c31_copies(T), W ), B, true),
+    X = 1, ( Y = Z -> K2 = same ; K2 = differ ),
+    copy_term(f(Y, Z), K5, K6),
+    K = k(K1, K2, K5, K6).
+c31_copies(T) :-
+    copy_term(T, C1), findall(T, member(_, [1,2]), L), catch(throw(c31ball(T)), c31ball(_), true),
+    bb_b_put(c31t, T), bb_get(c31t, C2), C1 \== L, C2 \== [].
 c31_after(W, B, K) :-
     freeze(X, K1 = woke), dif(Y, Z), bb_b_put(c31k, v(1)), L0 = [a,b,c],
     catch(W, B, true),
